@@ -394,6 +394,8 @@ ocp.set_der(v, a)
 
 
     def add_constraints(self, stage, opti):
+        if stage._constraints["integrator_roots"]:
+            raise Exception("Constraints with grid='integrator_roots' are only supported by DirectCollocation.")
         self.add_constraints_before(stage, opti)
         assert "integrator" not in stage._constraints
 
